@@ -62,6 +62,7 @@ class Ctx:
         e = goenv()
         e["VERIF_SEED"] = str(self.seed)
         e["VERIF_TIER"] = self.tier
+        e["VERIF_REPO"] = REPO
         if env:
             e.update(env)
         try:
